@@ -126,8 +126,8 @@ pub fn c03_slice(data: &[u8]) -> PResult {
     let id = b.codec();
     let root = b.spec(id, 160);
     let depth = 1 + b.u8() as usize % 3;
-    let path = (0..depth).map(|_| c03::RangeOp { form: b.u8() % 7, a: b.u16(), b: b.u16() }).collect();
-    let oob = if b.u8() % 3 == 0 { Some(c03::Oob { kind: b.u8() % 8, a: b.u16(), over: b.u8() % 3, far: if b.u8() % 3 == 0 { Some(b.u8()) } else { None } }) } else { None };
+    let path = (0..depth).map(|_| c03::RangeOp { form: b.u8() % 8, a: b.u16(), b: b.u16() }).collect();
+    let oob = if b.u8() % 3 == 0 { Some(c03::Oob { kind: b.u8() % 10, a: b.u16(), over: b.u8() % 3, far: if b.u8() % 3 == 0 { Some(b.u8()) } else { None } }) } else { None };
     c03::dispatch(&c03::Case { codec: id, root, path, oob })
 }
 
